@@ -75,7 +75,11 @@ def check_valid_signature(sig: bytes) -> None:
 def check_low_der_signature(sig_pair: tuple[int, int], generator: Any) -> None:
     # IsLowDERSignature
     r, s = sig_pair
-    hi_s = generator.order() - s
+    order = generator.order()
+    if r >= order or s >= order:
+        # out-of-range values make a signature that never verifies, not a high-S one
+        return
+    hi_s = order - s
     if hi_s < s:
         raise ScriptError("signature has high S value", errno.SIG_HIGH_S)
 
